@@ -159,6 +159,7 @@ namespace bluetoe {
         static constexpr std::size_t number_of_service_attributes        = details::count_service_attributes< Options... >::number_of_attributes;
         static constexpr std::size_t number_of_characteristic_attributes = details::sum_by< characteristics, details::sum_by_attributes >::value;
         static constexpr std::size_t number_of_client_configs            = details::sum_by< characteristics, details::sum_by_client_configs >::value;
+        static constexpr bool        is_secondary                        = details::count_by_meta_type< details::is_secondary_service_meta_type, Options... >::count != 0;
 
         using notification_priority = typename details::find_by_meta_type< details::outgoing_priority_meta_type, Options..., higher_outgoing_priority<> >::type;
 
